@@ -7,6 +7,11 @@ is run with the process dying after the c-th durable effect (folder mutation,
 sqlite transaction is rolled back, every in-memory object is discarded, a new
 server is started (real migrations / _restore_from_db / Mailbox.new) and the
 ledger of revealed (UIDVALIDITY, UID) pairs and acknowledged results is checked.
+
+recrash_step: the same, but the recovering process dies as well, after the
+c2-th durable effect of its own start-up (schema check, restore, first
+activation and resync of every mailbox; c2 symbolic); a third process then
+starts and the same ledger is checked - a crash during recovery from a crash.
 """
 
 from harness import persist
@@ -14,12 +19,12 @@ from harness import persist
 PROPERTY = "C11"
 FUNCTIONS = ["asimap.mbox.Mailbox.append/expunge/store/copy/_pack_if_necessary/check_new_msgs_and_flags/create/delete/rename/commit_to_db", "asimap.mbox.Mailbox._restore_from_db + Mailbox.new (restart)", "asimap.db.Database.apply_migrations", "asimap.user_server.IMAPUserServer.find_all_folders/_restore_from_db/get_next_uid_vv"]
 MUST_REACH = ["mbox.Mailbox.commit_to_db", "mbox.Mailbox._restore_from_db", "mbox.Mailbox.check_new_msgs_and_flags", "db.Database.apply_migrations", "user_server.IMAPUserServer.find_all_folders"]
-BOUNDS = {"quick": {"operations": "one of 10 operations + crash + restart", "crash point": "symbolic, 0..14 durable effects into the operation", "messages": "3 in inbox, 1 in other"}, "thorough": {"crash point": "0..30"}}
-SYMBOLIC = ["crash point index", "\\Deleted bits (expunge)", "addressed message (store/copy)"]
+BOUNDS = {"quick": {"operations": "one of 10 operations + crash + restart", "crash point": "symbolic, 0..14 durable effects into the operation", "messages": "3 in inbox, 1 in other", "second crash (recrash_step)": "first crash point 0..8 (one job each, 9 operations; pack excluded: recorded finding), second crash point symbolic 0..8 durable effects into the recovering process"}, "thorough": {"crash point": "0..30", "second crash": "first 0..14, second 0..16"}}
+SYMBOLIC = ["crash point index", "second crash point index (recrash_step)", "\\Deleted bits (expunge)", "addressed message (store/copy)"]
 REALISED = []
 STUBS = ["FakeMH with numbered durable effects", "real sqlite (implicit transactions, rollback at crash)", "SimLoop"]
 ASSUMPTIONS = ["a single file write / a single sqlite commit is atomic", "the interrupted operation starts at a later clock second than the previous completed command (directory mtime granularity)", "fsync ordering of the real file system is not modelled"]
-OUTSIDE = ["torn writes", "two operations in flight at the crash", "power loss semantics of the file system"]
+OUTSIDE = ["torn writes", "two operations in flight at the crash", "three or more crashes in a row", "power loss semantics of the file system"]
 EXPLANATION = "C11: the crash point is a symbolic integer over the numbered durable effects of the real operation."
 
 
@@ -30,5 +35,6 @@ def jobs(tier):
 SAMPLES = [
     {"module": "harness.persist", "fn": "crash_step", "params": {"op": "append", "prop": "C11", "cmax": 30}, "args": {"c": 4, "d1": False, "d2": False, "d3": False, "s": 2, "follow": True, "marked": False}},
     {"module": "harness.persist", "fn": "crash_step", "params": {"op": "expunge", "prop": "C11", "cmax": 30}, "args": {"c": 3, "d1": True, "d2": False, "d3": True, "s": 2, "follow": False, "marked": False}},
+    {"module": "harness.persist", "fn": "recrash_step", "params": {"op": "expunge", "prop": "C11", "cmin": 3, "cmax": 3, "c2max": 8}, "args": {"c": 3, "c2": 2, "d1": True, "d2": False, "d3": True, "s": 1}},
     {"module": "harness.persist", "fn": "first_start", "params": {"prop": "C11"}, "args": {"c": 7}},
 ]
